@@ -162,6 +162,11 @@ package silence
 //@   at call reindexSilence assert [reindex-the-updated] ret("state).merge") && !ret1("state).merge") && arg1 == e.Silence
 //@   ensures [reindexed-once-per-update] count("reindexSilence") == counttrue0("state).merge") - counttrue1("state).merge")
 //@   ensures [version-moves-with-every-change] s.version == old(s.version) + counttrue0("state).merge")
+//@   ensures [every-received-silence-is-offered] result == nil ==> count("state).merge") == len(ret("decodeState"))
+//@   ensures [holds-the-newest-received] result == nil ==> (forall k string :: k in ret("decodeState") && tsT(ret("decodeState")[k].ExpiresAt) >= ret("nowUTC")
+//@             ==> k in s.st && updAt(s, k) >= tsT(ret("decodeState")[k].Silence.UpdatedAt))
+//@   loop 1 invariant st == ret("decodeState") && count("state).merge") == len(visited) && (forall k string :: k in visited ==> k in st) && dom(st) == rangedom
+//@   loop 1 invariant forall k string :: k in visited && tsT(st[k].ExpiresAt) >= ret("nowUTC") ==> k in s.st && updAt(s, k) >= tsT(st[k].Silence.UpdatedAt)
 //@   loop 1 invariant s.st == old(s.st) && s.mi == old(s.mi) && storeInv(s) && s.st != st
 //@   loop 1 invariant forall k string :: old(k in s.st) ==> k in s.st && updAt(s, k) >= old(updAt(s, k))
 //@   loop 1 invariant forall k string :: old(k in s.st) && s.st[k] != old(s.st[k]) ==> updAt(s, k) > old(updAt(s, k))
